@@ -259,7 +259,12 @@ def move_case(res, case):
             return ({'aet': dest_title, 'address': 'dest%d.example' % (i % 7), 'port': 1000 + i % 7}, n,
                     gen())
 
-    peer = svc.CooperativePeer(list(outcomes))
+    # faults of the sub-association: the destination refuses it, or never confirms its release
+    fault = r.choice([None] * 5 + ['refuse', 'silent-release']) if n else None
+    peer = svc.CooperativePeer(list(outcomes), refuse=(fault == 'refuse'),
+                               silent_on_release=(fault == 'silent-release'))
+    case = dict(case, fault=fault)
+    res.distinct.add('move-fault|%s|%d' % (fault, min(n, 3)))
     with stubdul.stubbed() as Stub:
         ae = MoveAE('MOVESCP', 0, bind_and_activate=False)
         try:
@@ -290,6 +295,24 @@ def move_case(res, case):
         (m['command'].get(R.TAG_STATUS), m['command'].get(R.TAG_REMAINING),
          m['command'].get(R.TAG_COMPLETED), m['command'].get(R.TAG_FAILED),
          m['command'].get(R.TAG_WARNING)) for m in responses[:6]]}, limit=4)
+    if fault:
+        # whatever becomes of the sub-association, the retrieve concludes with one final response
+        res.count('oracle.move-subassociation-fault')
+        where += ' fault=' + fault
+        statuses_seen = [m['command'].get(R.TAG_STATUS) for m in responses]
+        finals = [s for s in statuses_seen if s not in (0xFF00, 0xFF01)]
+        if len(finals) != 1 or statuses_seen[-1:] != finals:
+            res.violation('move-final-response-count:sub-association-' + fault, 'C19.move',
+                          '%s: statuses %r (provider error: %s)' % (
+                              where, ['%04X' % (s or 0) for s in statuses_seen],
+                              '%s: %s' % (type(error).__name__, error) if error else None), case)
+        if fault == 'refuse' and finals and finals[0] == 0 and n:
+            res.violation('move-success-without-suboperations', 'C19.move',
+                          '%s: final status Success although no sub-operation could be performed' % where,
+                          case)
+        if fault == 'refuse':
+            return
+        error = None
     if error is not None:
         res.violation('move-provider-raises', 'C19.move', '%s: %s: %s (after %d responses)' % (
             where, type(error).__name__, error, len(responses)), case)
